@@ -120,9 +120,11 @@ size_t br_hmac_out(const br_hmac_context *ctx, void *out)
 	toy_fin(ctx->kso, (size_t)ctx->kso[17] | ((size_t)ctx->kso[18] << 8), ctx->out_len, out);
 	return ctx->out_len;
 }
+static size_t toy_outct_min, toy_outct_max; static int toy_outct_calls;   /* public range announced to the constant-time MAC */
 size_t br_hmac_outCT(const br_hmac_context *ctx, const void *data, size_t len, size_t min_len, size_t max_len, void *out)
 {
 	unsigned char s[16];
+	toy_outct_min = min_len; toy_outct_max = max_len; toy_outct_calls ++;
 	unsigned pos = ctx->kso[16];
 	size_t total = ((size_t)ctx->kso[17] | ((size_t)ctx->kso[18] << 8)) + len;
 	__CPROVER_assert(min_len <= len && len <= max_len, "br_hmac_outCT precondition min_len <= len <= max_len");
